@@ -308,6 +308,18 @@ func readVarUint(data []byte, info *fieldInfo) (uint64, error) {
 	return result, nil
 }
 
+// copyBytes fills the array or slice v, whose elements are of kind uint8, from data.
+// reflect.Copy insists on identical element types, so it cannot be used for named byte types.
+func copyBytes(v reflect.Value, data []byte) {
+	if v.Type().Elem() == uint8Type {
+		reflect.Copy(v, reflect.ValueOf(data))
+		return
+	}
+	for i, b := range data {
+		v.Index(i).SetUint(uint64(b))
+	}
+}
+
 // parseField is the main parsing function. Given a byte slice and an offset
 // (in bytes) into the data, it will try to parse a suitable ASN.1 value out
 // and store it in the given Value.
@@ -457,7 +469,7 @@ func parseField(v reflect.Value, data []byte, initOffset int, info *fieldInfo) (
 			// Only byte/uint8 arrays are supported
 			return offset, structuralError{info.fieldName(), "unsupported array type: " + v.Type().String()}
 		}
-		reflect.Copy(v, reflect.ValueOf(inner))
+		copyBytes(v, inner)
 		return offset, nil
 
 	case reflect.Slice:
@@ -480,7 +492,7 @@ func parseField(v reflect.Value, data []byte, initOffset int, info *fieldInfo) (
 		if fieldType.Elem().Kind() == reflect.Uint8 {
 			// Fast version for []byte
 			v.Set(reflect.MakeSlice(sliceType, datalen, datalen))
-			reflect.Copy(v, reflect.ValueOf(inner))
+			copyBytes(v, inner)
 			return offset, nil
 		}
 
